@@ -176,9 +176,15 @@ struct ostream
    ostream& operator<<(SetwT) { return *this; }
    ostream& operator<<(EndlT) { sink_eol(); return *this; }
 };
-/* ofstream as SoPlexBase::writeBasisFile uses it: names are either one token (a user name) or the two tokens "x"|"C", <int>.
+/* std::string as SoPlexBase::writeBasisFile uses it: only  "<one letter>" + std::to_string(<int>).  No characters are
+ * modelled; a string carries the same ghost form as the stringstream stub below: prefix letter (0 = none) + integer value,
+ * i.e. the text <letter><decimal digits of val> (no blank inside). */
+struct string { int lit; int val; };
+inline string to_string(int v) { string s; s.lit = 0; s.val = v; return s; }
+/* ofstream as SoPlexBase::writeBasisFile uses it: names are one token (a user name, or a std::string "x<int>") or the two
+ * tokens "x"|"C", <int>.
  * std::setw(n) pads the NEXT inserted item (only) to n characters (left-aligned here): if that item is the one-letter
- * prefix of a two-token name, blanks end up INSIDE the name (g_name_split). */
+ * prefix of a two-token name, blanks end up INSIDE the name (g_name_split); a padded std::string gets trailing blanks only. */
 struct ofstream
 {
    int dummy;
@@ -190,6 +196,13 @@ struct ofstream
    {
       g_width = 0;
       if(g_pend_letter) { sink_name(g_pend_letter, v); g_pend_letter = 0; } else g_malformed++;
+      return *this;
+   }
+   ofstream& operator<<(const string& s)
+   {
+      g_width = 0;                                            /* the whole string is ONE item: padding goes behind it */
+      if(g_pend_letter) { g_malformed++; g_pend_letter = 0; }
+      if(s.lit != 0) sink_name(s.lit, s.val); else g_malformed++;   /* a bare number is not a name */
       return *this;
    }
    ofstream& operator<<(const char* s)
@@ -211,7 +224,9 @@ struct ofstream
 };
 
 /* stringstream: only  name << "<literal>" << <int>;  name.str().c_str()  are used.  form: 0 empty, 1 = one literal,
- * 2 = one literal followed by one int (the shape of a default name), 3 = anything longer */
+ * 2 = one literal followed by one int (the shape of a default name), 3 = anything longer.  The state lives in ghost variables
+ * (one stream is live at a time) and is reset by the constructor: a stream declared inside a loop body starts empty in every
+ * iteration, one declared in front of the loop accumulates. */
 struct StrT { const char* p; const char* c_str() const { return p; } };
 struct stringstream
 {
@@ -229,6 +244,12 @@ struct stringstream
    StrT str() const { g_str_form = g_ss_form; g_str_lit = g_ss_lit; g_str_val = g_ss_val; StrT t; t.p = &g_ss_marker; return t; }
 };
 struct istream { int dummy; };
+}
+/* "<one letter>" + std::string: declared at global scope because the front end does no argument-dependent lookup */
+inline std::string operator+(const char* a, const std::string& b)
+{
+   __CPROVER_assert(a[0] != 0 && a[1] == 0 && b.lit == 0, "string stub: one-letter literal + to_string(int)");
+   std::string s; s.lit = a[0]; s.val = b.val; return s;
 }
 
 /* ---------------------------------------------------------------------------------------------------------------
